@@ -29,7 +29,7 @@ use vcommon::Rng;
 
 fn new_db() -> RootDatabase {
     let mut db = RootDatabase::builder().build().expect("RootDatabase");
-    init_dev_corelib(&mut db, PathBuf::from("/repo/corelib/src"));
+    init_dev_corelib(&mut db, PathBuf::from(format!("{}/corelib/src", std::env::var("VERIF_REPO").ok().filter(|s| !s.is_empty()).unwrap_or_else(|| "/repo".to_string()))));
     db
 }
 
